@@ -572,6 +572,8 @@ func stateRules(c *Ctx) {
 		loopVarCapture(c, g, short1)
 		// ---- a pooled object handed to a goroutine and put back by the starter
 		poolToGoroutine(c, g, short1)
+		// ---- a pooled list used with whatever an earlier call left in it
+		poolSliceHygiene(c, g, short1)
 	}
 	// parsers that link features to a local Sequence (shared by C01, C14, C15)
 	switch c.Prop {
@@ -1258,7 +1260,11 @@ func loopVarCapture(c *Ctx, g *ssa.Function, short1 string) {
 					if x.Call.Value == v {
 						continue // called, here or later in the same iteration: not kept
 					}
-					kept = true // handed to append or another function
+					// handed to a function as a callback (sort.Search, strings.Map, a visitor): used during the call;
+					// only append keeps it
+					if calleeName(x) == "builtin:append" {
+						kept = true
+					}
 				case *ssa.Phi:
 					if loop[x.Block()] {
 						follow(x) // one of several literals chosen within the iteration
@@ -1335,4 +1341,124 @@ func poolToGoroutine(c *Ctx, g *ssa.Function, short1 string) {
 			return
 		}
 	}
+}
+
+// poolSliceHygiene: a *[]T taken from a sync.Pool whose content is used as it comes (ranged over,
+// appended to, searched) without first being cut to length 0: the list still holds what an earlier call
+// put there, so this call's answer depends on earlier calls.
+func poolSliceHygiene(c *Ctx, g *ssa.Function, short1 string) {
+	eachInstr(g, func(i ssa.Instruction) {
+		get, ok := i.(*ssa.Call)
+		if !ok || calleeName(get) != "(*sync.Pool).Get" || get.Referrers() == nil {
+			return
+		}
+		for _, r := range *get.Referrers() {
+			ta, ok := r.(*ssa.TypeAssert)
+			if !ok {
+				continue
+			}
+			pt, isPtr := ta.AssertedType.Underlying().(*types.Pointer)
+			if !isPtr {
+				continue
+			}
+			if _, isSlice := pt.Elem().Underlying().(*types.Slice); !isSlice {
+				continue
+			}
+			var obj ssa.Value = ta
+			if ta.CommaOk {
+				obj = nil
+				if ta.Referrers() != nil {
+					for _, rr := range *ta.Referrers() {
+						if ex, isEx := rr.(*ssa.Extract); isEx && ex.Index == 0 {
+							obj = ex
+						}
+					}
+				}
+			}
+			if obj == nil || obj.Referrers() == nil {
+				continue
+			}
+			// the pointer itself may live in a cell (a deferred function literal puts it back): loads of the cell are the pointer
+			objs := []ssa.Value{obj}
+			for _, rr := range *obj.Referrers() {
+				if st, isSt := rr.(*ssa.Store); isSt && st.Val == obj {
+					if cell, isCell := st.Addr.(*ssa.Alloc); isCell && cell.Referrers() != nil {
+						for _, cr := range *cell.Referrers() {
+							if cl, isLoad := cr.(*ssa.UnOp); isLoad && cl.Op.String() == "*" {
+								objs = append(objs, cl)
+							}
+						}
+					}
+				}
+			}
+			var derefs []ssa.Instruction
+			for _, o := range objs {
+				if o.Referrers() != nil {
+					derefs = append(derefs, *o.Referrers()...)
+				}
+			}
+			for _, rr := range derefs {
+				ld, isLd := rr.(*ssa.UnOp)
+				if !isLd || ld.Op.String() != "*" || ld.Referrers() == nil {
+					continue
+				}
+				// old content is READ: the list is appended onto, ranged over or searched as it comes. A list that
+				// is resized and then overwritten element by element (or cut to [:0]) is re-initialised, not read.
+				asIs := false
+				uses := append([]ssa.Instruction{}, *ld.Referrers()...)
+				// the list kept in a local that a function literal also sees: loads of that cell are uses of the list
+				for _, u := range *ld.Referrers() {
+					if st, isSt := u.(*ssa.Store); isSt && st.Val == ssa.Value(ld) {
+						if cell, isCell := st.Addr.(*ssa.Alloc); isCell && cell.Referrers() != nil {
+							for _, cr := range *cell.Referrers() {
+								if cl, isLoad := cr.(*ssa.UnOp); isLoad && cl.Op.String() == "*" && cl.Referrers() != nil {
+									uses = append(uses, *cl.Referrers()...)
+								}
+							}
+						}
+					}
+				}
+				for _, u := range uses {
+					switch x := u.(type) {
+					case *ssa.Range:
+						asIs = true
+					case *ssa.Call:
+						n := calleeName(x)
+						if n == "builtin:append" && len(x.Call.Args) > 0 {
+							if a0, isLoad := x.Call.Args[0].(*ssa.UnOp); isLoad || x.Call.Args[0] == ssa.Value(ld) {
+								_ = a0
+								asIs = true
+							}
+						}
+						if strings.HasPrefix(n, "sort.Search") || n == "strings.Join" {
+							asIs = true
+						}
+					case *ssa.Phi:
+						// the loop-carried list of an accumulation loop starts from the pooled content
+						asIs = true
+					}
+				}
+				if asIs {
+					// ... unless the function also writes the list's elements by index (a re-initialising loop)
+					eachInstr(g, func(j ssa.Instruction) {
+						if st, ok := j.(*ssa.Store); ok {
+							if ia, ok := st.Addr.(*ssa.IndexAddr); ok {
+								if l2, ok := ia.X.(*ssa.UnOp); ok && l2.Op.String() == "*" {
+									for _, o := range objs {
+										if l2.X == o {
+											asIs = false
+										}
+									}
+								}
+							}
+						}
+					})
+				}
+				if asIs {
+					c.bad("STATE", "pool-content:"+short1, ld.Pos(), fmt.Sprintf("%s takes a list from a sync.Pool and uses its content as it comes, without cutting it to length 0 first: the list still holds what an earlier call left in it, so this call depends on earlier calls", short1))
+					return
+				}
+			}
+		}
+	})
 }
